@@ -28,6 +28,9 @@ def check(run):
     run.rule('ACC.nocapture', acc.RULES['ACC.nocapture'])
     for cfg in configs(run):
         F = run.facts(cfg)
+        # helpers this property stands on (rule sets owned by other properties, see common.deps)
+        from common import deps as _deps
+        _deps(run, F, 'drivers', 'accessors')
         A.check_folds(run, F)
         nu = N.check_unwrap(run, F, FILES, AUDITED_UNWRAP)
         run.floor('NULL.unwrap', 'IsNone::unwrap sites in null-aware code', nu, 100)
@@ -47,6 +50,9 @@ def check(run):
         for k in find_kernels(F):
             if not k.custom:
                 acc.check_acc(run, KernelModel(k))
+    # every container the generic code can be instantiated with hands out its elements in logical order
+    from common import dep_backends as _dep_backends
+    _dep_backends(run)
     return run.finish(
         'other',
         'Parametricity argument, checked structurally: null-aware code is generic over '
